@@ -20,6 +20,25 @@ pub struct Pass {
     pub dedup_budget: Duration,
 }
 
+/// Thorough tier (or FJV_DEDUP_EXTRA=n): after its exhaustive depth every pass continues for up to `n` further levels,
+/// extending only one representative program per canonical state (canon.rs), for a separate time budget.
+pub fn with_dedup(mut v: Vec<Pass>, tier: &str) -> Vec<Pass> {
+    let env: Option<usize> = std::env::var("FJV_DEDUP_EXTRA").ok().and_then(|s| s.parse().ok());
+    let extra = env.unwrap_or(if tier == "thorough" { 2 } else { 0 });
+    if extra == 0 {
+        return v;
+    }
+    let secs: f64 = std::env::var("FJV_DEDUP_SECS").ok().and_then(|s| s.parse().ok()).unwrap_or(if tier == "thorough" { 60.0 } else { 5.0 });
+    for p in v.iter_mut() {
+        if !p.prop.cfg.blob {
+            p.prop.dedup = true;
+            p.dedup_extra = extra;
+            p.dedup_budget = Duration::from_secs_f64(secs);
+        }
+    }
+    v
+}
+
 pub fn threads() -> usize {
     std::env::var("FJV_THREADS")
         .ok()
